@@ -1,5 +1,5 @@
 """C12 - invalid specifications are refused with a clear error wherever the fault sits."""
-CONTRACT_MODULES = ['c12_audit', 'c12_collectors', 'c12_ownrules']
+CONTRACT_MODULES = ['c12_audit', 'c12_collectors', 'c12_ownrules', 'c12c_nests', 'c12c_data', 'c12c_biogeme', 'c12c_names']
 LEVEL = 'other'
 TRUSTED = ['ENGINE-SPEC: the engine raises when it reads the missing-data code (assumed; sampled)',
            'induction scheme: the abstract contracts of the virtual methods audit / check_draws / check_rv / check_panel_trajectory / '
@@ -7,7 +7,12 @@ TRUSTED = ['ENGINE-SPEC: the engine raises when it reads the missing-data code (
            '(formulas are finite trees); every implementation is verified against them',
            'assumed tail of LogLogit.audit (numpy checks after its early return): returns normally and only appends to its two lists '
            '(syntactic part: static obligation; numeric content: bounded harness)',
-           'assumed callees: IdManager.prepare, Expression.prepare, calculate_function_and_derivatives (compiled engine), Named*FunctionOutput.__init__']
+           'assumed callees: IdManager.prepare, Expression.prepare, calculate_function_and_derivatives (compiled engine), Named*FunctionOutput.__init__',
+           'round 2 (c12c): assumed pandas model of the data audit (df.dtypes.items() enumerates the columns once each in order; np.issubdtype(dtype, np.number) and '
+           'df.isnull().values.any() are deterministic predicates; len(df.index) = number of rows); assumed callees Database._generate_headers (no refusal), '
+           'Expression.get_value_c (engine; numpy float result), Database.get_sample_size; abstract contract of dict_of_elementary_expression (induction hypothesis); '
+           'a tuple of nests of unknown length is modelled as an immutable list; LIBSPEC of set(list) / set algebra / two-level unions / list += / '
+           'dict(chain(*items)) as skolemised definitions (pyvc/libext/c12c_*.py)']
 ASSUMPTIONS = []
 EXPLANATION = ('Deductive part: "wherever the fault sits" as structural induction over the formula tree.  Every implementation of the recursive audit '
                '(base body for every family of node classes, Variable, MonteCarlo, PanelLikelihoodTrajectory, Integrate, BelongsTo, comparison operators, '
@@ -18,9 +23,16 @@ EXPLANATION = ('Deductive part: "wherever the fault sits" as structural inductio
                'column is absent; IdManager.__init__, dict_of_formulas.check_validity / get_expression refuse iff fault; get_value_and_derivatives returns a '
                'value only without fault.  Bounded part: fault planting on the real code (every fault kind at every operand position of every operator kind, '
                'each case in its own process, fault-free hosts as control), which also covers what is out of the deductive subset: Database._audit, nests, '
-               'BIOGEME._audit, IdManager.prepare (duplicate names), dict_of_elementary_expression, the numeric tail of LogLogit.audit and the missing-data code.')
+               'BIOGEME._audit, IdManager.prepare (duplicate names), dict_of_elementary_expression, the numeric tail of LogLogit.audit and the missing-data code.  '
+               'Round 2 (c12c) moves part of that into the deductive part, for all inputs: nests.py (check_intersection refuses IFF two different nests, ANY pair, share an '
+               'alternative; check_union accepts IFF nests and alone cover exactly the choice set; check_partition; the three constructors refuse IFF a nest alternative is '
+               'outside the choice set), Database._audit / Database.__init__ (BiogemeError IFF no row, a non-numeric column or a NaN, over an assumed pandas model), '
+               'BIOGEME._audit (BiogemeError IFF some formula has an audit error, misplaced draws or a misplaced random variable; every error collected), and '
+               'dict_of_elementary_expression for every node class except bioLinearUtility (the names of a kind anywhere in the tree reach the numbering); static obligations '
+               'for the duplicate-name guard of IdManager.prepare and the verdict of the cross-nested check_validity.')
 LEVEL_TEXT = ('Proof obligations for the audit descent, the placement collectors and the small own rules (all inputs); bounded fault enumeration on the real '
-              'code for the entry points and the data / nest / missing-data faults; not a proof of the whole property.')
+              'code for the entry points and the data / nest / missing-data faults; not a proof of the whole property.  Round 2: the nest audits, the data audit (assumed pandas '
+              'model), BIOGEME._audit and the name collection are proof obligations too; the duplicate-name rule is a static obligation + bounded.')
 LEVEL_NOTE = 'Trusted: the induction scheme (abstract contracts on sub-formulas), the assumed tail of LogLogit.audit, the expected-outcome table of the bounded harness.'
 TECHNIQUE = 'deductive verification of the recursive audit / collectors (structural induction through abstract contracts) + bounded fault planting on the real code'
 DESIGN_REF = 'DESIGN.md section 3 / C12'
@@ -121,6 +133,8 @@ def static_logit_tail():
 def extra(tier, seed):
     from pyvc.bounded import run_native
     out = [static_dispatch(), static_logit_tail()]
+    from specs import c12c_static       # round 2 (agent c12c)
+    out += [c12c_static.names_dispatch(), c12c_static.cnl_validity(), c12c_static.duplicate_rule()]
     out.append(run_native('C12:bounded:fault-planting', 'c12_faults.py', [tier, str(seed)],
                           bound='see the harness bound string: 56 hosts x wrappers x 10 fault kinds x 2 entry points, missing-data cases, data faults, nest faults', timeout=1500))
     return out
